@@ -633,6 +633,18 @@ pub fn run_c13(tier: &str, report: &mut Report) {
 
 pub fn run_c06_http(report: &mut Report) {
     run_streaming(report, "C06");
+    let (fs, evals) = crate::c06::run_scripts();
+    for f in fs {
+        report.add_violation(Violation {
+            property: "C06".into(),
+            signature: format!("E5:{}", f.kind),
+            message: f.msg,
+            replay: json!({"engine": "c06", "case": f.case}),
+        });
+    }
+    let st = report.coverage.get("states").and_then(|v| v.as_u64()).unwrap_or(0);
+    report.cov("states", json!(st + evals));
+    report.cov("script_level_evaluations", json!(evals));
 }
 
 /// The streaming routes (head-follow, cat-follow): the same cases serve C06 (isolation) and C13
